@@ -364,6 +364,112 @@ theorem calcPerm_loop_matches_source (pre : List Nat) (a b : Nat) (post : List N
 example : leftPerm (K := Int) 1 [2, 3] = .ok (((DMat.eye 1).kron ⟨3 * 2, 2 * 3, Kmat 3 2⟩).kron (DMat.eye 1)) := by
   rw [leftPerm_matches_source]; rfl
 
+/-! ### the permutation matrix is orthogonal -/
+section orthoprops
+variable {K : Type} [CommSemiring K]
+
+/-- helper: every `_left_permutation_matrix` is orthogonal (`I ⊗ K ⊗ I` with `KᵀK = 1`) -/
+theorem leftPerm_ortho (pos : Nat) (sizes : List Nat) (M : DMat K) (h : leftPerm (K := K) pos sizes = .ok M) :
+    M.IsOrtho := by
+  rw [leftPerm_matches_source] at h
+  split at h
+  · injection h with h; subst h
+    apply kron_ortho _ _ (kron_ortho _ _ (eye_ortho _) ?_) (eye_ortho _)
+    exact Kmat_orthogonal _ _
+  · cases h
+
+/-- helper: the loop of `calc_permutation_matrix` keeps the accumulated matrix orthogonal -/
+theorem calcPermLoop_ortho (fuel : Nat) (order sizes : List Nat) (perm P : DMat K) (o s : List Nat)
+    (hp : perm.IsOrtho) (h : calcPermLoop (K := K) leftPerm fuel order sizes perm = .ok (P, o, s)) : P.IsOrtho := by
+  induction fuel generalizing order sizes perm with
+  | zero => simp [calcPermLoop] at h
+  | succ f ih =>
+    unfold calcPermLoop at h
+    split at h
+    · injection h with h; simp only [Prod.mk.injEq] at h; rw [← h.1]; exact hp
+    · rename_i pos _
+      split at h
+      · cases h
+      · rename_i left hl
+        split at h
+        · cases h
+        · rename_i perm' hm
+          exact ih _ _ perm' (mul_ortho left perm perm' hm (leftPerm_ortho pos sizes left hl) hp) h
+
+
+/-- C07: the matrix returned by `calc_permutation_matrix` is orthogonal, `PᵀP = 1`, for every order, any number of
+subsystems and any sizes (it is a product of `I ⊗ K(p,q) ⊗ I` factors) — so `P · t · Pᵀ` in `_tensor_product_hs_hs`
+is a similarity transformation and `Pᵀ` undoes `P`. -/
+theorem calcPerm_orthogonal (order sizes : List Nat) (P : DMat K) (h : calcPerm (K := K) order sizes = .ok P) :
+    P.IsOrtho := by
+  unfold calcPerm at h
+  cases hl : calcPermLoop (K := K) leftPerm (order.length * order.length + 1) order sizes (DMat.eye (prodL sizes)) with
+  | error e => simp [hl, Except.map] at h
+  | ok r =>
+    simp only [hl, Except.map, Except.ok.injEq] at h
+    subst h
+    exact calcPermLoop_ortho _ _ _ _ r.1 r.2.1 r.2.2 (eye_ortho _) hl
+
+/-- the same for the matrix the driver uses (`ratPerm`) -/
+theorem ratPerm_orthogonal (order sizes : List Nat) (P : DMat Rat) (h : ratPerm order sizes = .ok P) : P.IsOrtho :=
+  calcPerm_orthogonal order sizes P (ratPerm_eq_calcPerm order sizes ▸ h)
+
+/-- non-vacuity: a four-subsystem order on which `calc_permutation_matrix` returns a matrix -/
+example : ∃ P, calcPerm (K := Rat) [3, 1, 2, 0] [4, 9, 4, 4] = .ok P := calcPerm_total _ _ rfl
+
+end orthoprops
+
+/-- helper: the matrix the driver uses has as many columns as the product of the sizes -/
+theorem ratPerm_cols (order sizes : List Nat) (P : DMat Rat) (h : ratPerm order sizes = .ok P) :
+    P.c = prodL sizes := by
+  rw [ratPerm_eq_calcPerm] at h
+  unfold calcPerm at h
+  cases hl : calcPermLoop (K := Rat) leftPerm (order.length * order.length + 1) order sizes (DMat.eye (prodL sizes)) with
+  | error e => simp [hl, Except.map] at h
+  | ok r =>
+    simp only [hl, Except.map, Except.ok.injEq] at h
+    subst h
+    exact calcPermLoop_cols _ _ _ _ _ r.1 r.2.1 r.2.2 hl
+
+/-- C07 "a product gate … acts factor-wise … whatever the order of the arguments", on the **executed**
+`_tensor_product_hs_hs` (`tensorHsWith` with the `kron` core the driver runs, `= tensorHsHs` by `hs_tensor`): the
+result is `R = P·(A⊗B)·Pᵀ` with `P` the subsystem re-ordering, and for **every** vector `x` (entangled or not)
+`R·(P·x) = P·((A⊗B)·x)` — the product gate maps the re-ordered image of `x` to the re-ordered image of `(A⊗B)x`; for
+`x = x₁⊗x₂` the latter is the re-ordering of `(A x₁)⊗(B x₂)` (`product_gate_action`, `calcPerm_sorts`). Any number
+and dimensions of subsystems behind `A` and `B`; needs only that the sizes multiply up (`hdim`). -/
+theorem tensorHs_intertwines (n1 n2 : Nat) (A : Mat Rat n1 n1) (B : Mat Rat n2 n2) (e : List ESys)
+    (hdim : prodL (e.map fun x => sq x.2) = n1 * n2) :
+    ∃ (P R : DMat Rat), ratPerm (e.map (·.1)) (e.map fun x => sq x.2) = .ok P ∧
+      tensorHsWith (fun A B => kron A B) ⟨n1, n1, A⟩ ⟨n2, n2, B⟩ e = .ok R ∧
+      ∀ x y z, P.mulVecL x = .ok y → (⟨n1 * n2, n1 * n2, kron A B⟩ : DMat Rat).mulVecL x = .ok z →
+        R.mulVecL y = P.mulVecL z := by
+  obtain ⟨P, hP⟩ : ∃ P, ratPerm (e.map (·.1)) (e.map fun x => sq x.2) = .ok P := by
+    rw [ratPerm_eq_calcPerm]; exact calcPerm_total _ _ (by simp)
+  have hc := ratPerm_cols _ _ P hP
+  have hortho := ratPerm_orthogonal _ _ P hP
+  rw [hdim] at hc
+  obtain ⟨pr, pc, pm⟩ := P
+  simp only at hc
+  subst hc
+  have hpt : DMat.mul (⟨pr, n1 * n2, pm⟩ : DMat Rat) ⟨n1 * n2, n1 * n2, kron A B⟩
+      = .ok ⟨pr, n1 * n2, pm.mul (kron A B)⟩ := by
+    simp [DMat.mul]
+  have hR : DMat.mul (⟨pr, n1 * n2, pm.mul (kron A B)⟩ : DMat Rat) (DMat.transpose ⟨pr, n1 * n2, pm⟩)
+      = .ok ⟨pr, pr, (pm.mul (kron A B)).mul pm.transpose⟩ := by
+    simp [DMat.mul, DMat.transpose]
+  refine ⟨⟨pr, n1 * n2, pm⟩, ⟨pr, pr, (pm.mul (kron A B)).mul pm.transpose⟩, hP, ?_, ?_⟩
+  · unfold tensorHsWith
+    simp only [and_self, dite_true, bind, Except.bind, hP, hpt]
+    exact hR
+  · intro x y z hy hz
+    have h1 := transpose_mulVecL_of_ortho _ hortho x y hy
+    rw [mul_mulVecL _ _ _ hR y x h1]
+    exact mul_mulVecL _ _ _ hpt x z hz
+
+
+/-- non-vacuity of `tensorHs_intertwines` (`hdim`): a qutrit gate on subsystem 5 and a qubit gate on subsystem 2 -/
+example : prodL (([(5, 3), (2, 2)] : List ESys).map fun x => sq x.2) = 9 * 4 := by decide
+
 /-! ### the measurement-process layout (open defect D7b) -/
 
 /-- HS matrices of a 1-dimensional system (1×1) — enough to exhibit an outcome layout -/
